@@ -44,8 +44,9 @@ type netFD struct {
 	network       string // tcp, tcp4, tcp6, unix, unixgram, unixpacket
 	localAddr     net.Addr
 	remoteAddr    net.Addr
-	// for detaching conn from poller
-	detaching bool
+	// for detaching conn from poller.
+	// Set by Detach, read by Close which may run on the poller's goroutine: accessed atomically.
+	detaching int32
 }
 
 func newNetFD(fd, family, sotype int, net string) *netFD {
